@@ -68,9 +68,11 @@ def gen(rng: random.Random, tier: str, idx: int) -> dict:
         elif r < 0.70:
             ops.append({"kind": "sleep", "dt": rng.choice([0.0, 10.0, 1800.0, 3700.0, 10800.0, 90000.0])})
         elif r < 0.78 and len(open_ids) < 2:
-            if rng.random() < 0.35:
+            if rng.random() < 0.5:
                 # the transaction registers a PRE-BUILT file (append_files), possibly older than any grace period
+                part = rng.random() < 0.7      # partitioned layout: the same basename in every directory
                 ops.append({"kind": "tx_open", "id": nid, "tag": tag, "n": 1, "prebuilt": True,
+                            **({"dir": f"p={nid % 2 + 1}", "name": "pre_part0"} if part else {}),
                             "age": rng.choice([0.0, 4000.0, 8000.0]),
                             "spell": rng.choice(FILE_SPELLINGS if backend == "local" else FILE_SPELLINGS[:3])})
             else:
@@ -153,7 +155,9 @@ def check_gc(w: world.World, sim, rec: dict, open_files: set, V: List[dict], cfg
         bad("G.deleted_reachable", f"deleted {len(hit)} file(s) referenced by retained snapshots, e.g. {sorted(hit)[:2]}")
     # a transaction is "live" for the collector while its marker is younger than the 24 h
     # abandonment window (documented design limit; longer-open transactions are out of envelope)
-    stale_open = {f for f in open_files if f not in pre["protected"] and f not in pre["fresh_markers"]}
+    # (decided by the transaction's AGE, not by whether a marker happens to protect it: a marker that was never
+    # written, or was overwritten / removed by another transaction, must not read as "abandoned")
+    stale_open = set(rec.get("_stale_open", ()))
     if stale_open:
         sim.probe("gc_open_tx_past_abandonment")
     hit2 = deleted & ((open_files - stale_open) | pre["protected"] | pre["fresh_markers"])
@@ -232,6 +236,7 @@ def execute(plan: dict, scratch: str, replay: Optional[dict] = None) -> dict:
         def body():
             a = sim.me()
             open_files: dict = {}
+            opened_at: dict = {}
             abandoned: set = set()
             for i, op in enumerate([{"kind": "open"}] + ops):
                 if op["kind"] == "gc":
@@ -242,16 +247,16 @@ def execute(plan: dict, scratch: str, replay: Optional[dict] = None) -> dict:
                 rec["i"] = i
                 if op["kind"] == "tx_open" and rec["outcome"] == "ok":
                     open_files[op["id"]] = set(rec["resolved"].get("tx_files", []))
+                    opened_at[op["id"]] = sim.true_time()
                 if op["kind"] == "tx_close":
                     open_files.pop(op["id"], None)
                 if op["kind"] == "gc":
                     rec["_pre"] = pre
                     of = set().union(*open_files.values()) if open_files else set()
+                    old_tx = {tid for tid in open_files if pre and pre["now"] - opened_at[tid] > 86400.0 - 5.0}
+                    rec["_stale_open"] = set().union(*(open_files[t_] for t_ in old_tx)) if old_tx else set()
                     check_gc(w, sim, rec, of, V, cfg, sp)
-                    if pre:
-                        for tid, fs in open_files.items():
-                            if any(f not in pre["protected"] and f not in pre["fresh_markers"] for f in fs):
-                                abandoned.add(tid)
+                    abandoned |= old_tx
                     if pre and (pre["orphans"] or of):
                         nontrivial[0] = True
                 elif rec["outcome"] == "raise" and op["kind"] == "tx_close" and op["id"] in abandoned:
@@ -264,6 +269,7 @@ def execute(plan: dict, scratch: str, replay: Optional[dict] = None) -> dict:
         ph.run()
         for h in w.history:
             h.pop("_pre", None)
+            h.pop("_stale_open", None)
         res = common.assemble(ph, V if sim.outcome == "ok" else [], nontrivial[0], cfg,
                               {"config": cfg, "ops": [o["kind"] for o in ops],
                                "outcomes": [(h["op"]["kind"], h["outcome"]) for h in w.history]})
